@@ -145,6 +145,9 @@ def _has_power_of_reciprocal(t):
     for a in t[1:]:
         if isinstance(a, list):
             if a and a[0] == 'T':
+                # a factor base**exponent of a product
+                if t[0] == 'Mul' and isinstance(a[2], list) and a[2][0] != 'Integer' and a[1][0] == 'Pow' and a[1][2][0] == 'Integer' and int(a[1][2][1]) < 0:
+                    return True
                 if _has_power_of_reciprocal(a[1]) or _has_power_of_reciprocal(a[2]):
                     return True
             elif _has_power_of_reciprocal(a):
